@@ -94,7 +94,7 @@ _JSONLINE = re.compile(r'^"(\{|\[)')
 
 
 def run_tlc(ctx, module, cfg, workers=None, simulate=None, depth=None, timeout=600, files=None, deque=False,
-            extra=None, want_lines=True, copy=None, xss="64m", heap=None, line_cb=None, coverage=False, cfg_dir=None):
+            extra=None, want_lines=True, copy=None, xss="64m", heap=None, line_cb=None, coverage=False, cfg_dir=None, rename=None):
     """Run TLC on spec/<module>.tla with spec/<cfg> in a scratch directory.  `copy`: extra files (abs paths)
     to place next to the spec (trace files).  Returns TLCResult; raises Broken on timeouts/crashes."""
     with _TLC_LOCK:
@@ -105,7 +105,7 @@ def run_tlc(ctx, module, cfg, workers=None, simulate=None, depth=None, timeout=6
         shutil.copy(f, d)
     shutil.copy(os.path.join(cfg_dir or SPEC, cfg), os.path.join(d, cfg))
     for f in (copy or []):
-        shutil.copy(f, d)
+        shutil.copy(f, os.path.join(d, (rename or {}).get(os.path.basename(f), os.path.basename(f))))
     tmp = os.path.join(d, "tmp")
     os.makedirs(tmp)
     jopts = ["-Djava.io.tmpdir=" + tmp, "-Xss" + xss, "-XX:+UseParallelGC"]
